@@ -156,7 +156,22 @@ def _run(check, ctx, rep, replay):
         t = time.time()
         try:
             base = [l for l in (check.corr_lines(ctx) if not replay else []) if l.endswith(' E')]
-            probe = sample(base, 30000 if ctx.tier == 'quick' else 200000, ctx.rng)
+            # whole groups of calls that differ only in their last integer argument are kept together (the stride pass of run_c_twice
+            # needs both (Z, m) and (Z, m - 256) to be there), groups chosen by the seeded generator up to the budget
+            budget = 30000 if ctx.tier == 'quick' else 200000
+            if len(base) <= budget: probe = base
+            else:
+                groups = {}
+                for l in base:
+                    t = l.split(' ')
+                    ints = [k for k in range(1, len(t)) if t[k].lstrip('-').isdigit()]
+                    k = ints[-1] if ints else len(t)
+                    groups.setdefault((t[0], tuple(t[1:k] + t[k + 1:])), []).append(l)
+                keys = sorted(groups); ctx.rng.shuffle(keys)
+                probe = []
+                for k in keys:
+                    if len(probe) >= budget: break
+                    probe += groups[k]
             if probe:
                 a1, a2, a3, a4 = ctx.run_c_twice(probe)
                 nrep = 0
@@ -167,6 +182,24 @@ def _run(check, ctx, rep, replay):
                             viols.append(dict(key=l + ' ; ' + l, got='first call: %s | same call again in the same process: %s | in the argument-reversed order: %s | in a shuffled order: %s' % (x, y, z, w),
                                               expected='the same result every time', what='the result of a call depends on the calls made before it'))
                 n_search += 3 * len(probe); stats['repeat_probe'] = dict(calls=len(probe), history_dependent=nrep)
+            # ---- the optional error slot: "passing no slot changes nothing but the reporting" — every probed call once more without a slot
+            #      (seeded changes C02-11, C10-11, C12-12, C01-11: failure detected through `*error`, i.e. only when a slot is given)
+            if probe:
+                nl = [l[:-1] + 'N' for l in probe]
+                an = ctx.run_c(nl)
+                nnull = 0
+                for l, x, y in zip(probe, a1, an):
+                    px, py = core.parse_answer(x), core.parse_answer(y)
+                    if px['kind'] != 'ok' or py['kind'] != 'ok':
+                        bad = px['kind'] != py['kind']
+                    else:
+                        vx = px['vals']; vy = py['vals']
+                        bad = len(vx) != len(vy) or any(not (a == b or (a != a and b != b)) for a, b in zip(vx, vy))
+                    if bad:
+                        nnull += 1
+                        if nnull <= 20:
+                            viols.append(dict(key=l[:-1] + 'N', got=y, expected='the value returned with an error slot: %s' % x, what='the result of a call depends on whether the optional error slot is passed'))
+                n_search += len(probe); stats['null_slot_probe'] = dict(calls=len(probe), differing=nnull)
         except core.BuildError:
             pass
         ctx.tick('repeat_probe', t)
